@@ -518,6 +518,20 @@ def install(env):
     method(SStr, "split")(_split)
     method(SBytes, "split")(_split)
 
+    def _split_count(it, s, sep, maxsplit):
+        if not isinstance(s, SV):
+            return _api.split_count(s, sep, maxsplit)
+        return ops.mk_int(F_splitn(s.term, ops.seq_term(sep), z3.IntVal(maxsplit)))
+
+    def _split_part(it, s, sep, maxsplit, i):
+        if not isinstance(s, SV):
+            return _api.split_part(s, sep, maxsplit, i)
+        t = F_splitp(s.term, ops.seq_term(sep), z3.IntVal(maxsplit), z3.IntVal(i))
+        return ops.mk_str(t) if isinstance(s, SStr) else SBytes(t, False)
+
+    stub(_api.split_count, _split_count)
+    stub(_api.split_part, _split_part)
+
     @method(SStr, "startswith")
     def _sw(it, s, p):
         return ops.mk_bool(z3.PrefixOf(ops.seq_term(p), s.term))
